@@ -105,7 +105,7 @@ void h_%(fn)s(void)
 
 def grp(u, elem, call, checks, clause):
     return Group(name="accessors." + u.name[4:], units=[u], harness=harness(u.name, elem, call, checks), entry="h_" + u.name,
-                 unwind=NB_UNWIND, timeout=300, min_obligations=5, replay="replay/raster.cpp", clause=clause)
+                 unwind=NB_UNWIND, timeout=300, min_obligations=5, replay="replay/accessors.cpp", clause=clause)
 
 
 NB_UNWIND = 8 * 8 + 2
